@@ -723,3 +723,60 @@ func ruleR05g(c *Ctx) {
 	}
 	c.floor("R05g", "scanner functions with a manual rewind", 2, n)
 }
+
+// R05h: every manual rewind of the scanner position is by the recorded width of the last read, by a
+// constant, or inside a start guard; any other amount leaves scanner progress undecided.
+func ruleR05h(c *Ctx) {
+	pf := getParseFacts(c)
+	if pf == nil {
+		return
+	}
+	n := 0
+	for fn, fd := range pf.funcs {
+		_ = fn
+		if !nodeScopedTo(fd, pf.info, pf.lexerTypes) {
+			continue
+		}
+		ord := 0
+		ast.Inspect(fd.Body, func(x ast.Node) bool {
+			as, ok := x.(*ast.AssignStmt)
+			if !ok || as.Tok != token.SUB_ASSIGN || len(as.Lhs) != 1 {
+				return true
+			}
+			se, ok := ast.Unparen(as.Lhs[0]).(*ast.SelectorExpr)
+			if !ok || se.Sel.Name != "pos" {
+				return true
+			}
+			if tv, ok := pf.info.Types[se.X]; !ok || namedOf(tv.Type) == nil || !pf.lexerTypes[namedOf(tv.Type)] {
+				return true
+			}
+			n++
+			ord++
+			key := fmt.Sprintf("%s rewind#%d", c.declKey("parse", fd), ord)
+			amt := stripConv(as.Rhs[0], pf.info)
+			src := exprKey(amt)
+			isConst := false
+			if tv, ok := pf.info.Types[amt]; ok && tv.Value != nil {
+				isConst = true
+			}
+			_, isParam := pf.info.Uses[identOf(amt)].(*types.Var)
+			switch {
+			case isConst:
+				c.ok("R05h", key, as.Pos(), "steps back by the constant "+src)
+			case strings.HasSuffix(src, ".width"):
+				c.ok("R05h", key, as.Pos(), "steps back by the recorded width of the last read")
+			case isParam && identOf(amt) != nil:
+				c.ok("R05h", key, as.Pos(), "steps back by the caller's constant amount ("+src+"), inside the start guard")
+			default:
+				c.unk("R05h", key, as.Pos(), "the scanner steps back by "+src+", which is neither the recorded width of the last read nor a constant: that the scanner still makes progress (and does not cross the token start) cannot be established")
+			}
+			return true
+		})
+	}
+	c.floor("R05h", "manual rewinds by an amount", 3, n)
+}
+
+func identOf(e ast.Expr) *ast.Ident {
+	id, _ := ast.Unparen(e).(*ast.Ident)
+	return id
+}
